@@ -74,6 +74,9 @@ def gen_script(rng):
     return text
 
 
+_EARLIER = []      # (ddl, live result, deep snapshot) of the last few *other* scripts parsed in this process
+
+
 def run_history(ctx, case):
     from simple_ddl_parser import DDLParser
     ddl, ctor, history = case["ddl"], case.get("ctor") or {}, case["history"]
@@ -107,6 +110,17 @@ def run_history(ctx, case):
         if r[0] == "ok":
             returned.append((step, r[1], copy.deepcopy(r[1])))
         ctx.obs["history_steps"] += 1
+    # results returned for EARLIER, different scripts (by other parser objects) must not have been touched by parsing this one
+    for eddl, live, snap in _EARLIER:
+        ctx.obs["earlier_results_rechecked"] += 1
+        if live != snap:
+            ctx.violation("returned_result_modified_later", dict(case, step=-1), {"modified_by": "parsing ANOTHER script afterwards (another object)", "earlier_script": short(eddl, 300),
+                                                                                  "diffs": [(q, short(x, 100), short(y, 100)) for q, x, y in ddiff(live, snap)[:4]]})
+            _EARLIER[:] = []
+            break
+    if returned and not isinstance(returned[0][1], str):
+        _EARLIER.append((ddl, returned[0][1], copy.deepcopy(returned[0][1])))
+        del _EARLIER[:-4]
 
 
 def cross_script_case(ctx, case):
